@@ -39,7 +39,9 @@ func nat(j *sym.Job) *sym.Job { j.Contracts = natContracts; return j }
 type cell struct{ wx, wy, d, p int }
 
 func addsubCells(tier string) []cell {
-	cs := []cell{{1, 1, 0, 19}, {1, 1, 1, 19}, {1, 1, -18, 10}, {1, 1, 19, 19}, {1, 1, 20, 5}, {1, 1, -39, 19}, {2, 1, -1, 20}}
+	cs := []cell{{1, 1, 0, 19}, {1, 1, 1, 19}, {1, 1, -18, 10}, {1, 1, 19, 19}, {1, 1, 20, 5}, {1, 1, -39, 19}, {2, 1, -1, 20},
+		// operands that do not overlap (the smaller one only feeds the sticky bit), precision one below / at a word boundary
+		{1, 1, 19, 18}, {1, 1, 30, 18}, {2, 1, 19, 37}, {1, 2, 38, 18}}
 	if tier == "thorough" {
 		cs = append(cs, cell{1, 2, 19, 38}, cell{2, 2, 0, 38}, cell{2, 2, 7, 21}, cell{2, 1, 18, 1}, cell{1, 2, -20, 37}, cell{2, 2, -38, 19},
 			cell{3, 1, 0, 40}, cell{3, 2, -5, 30}, cell{1, 1, 5, 1}, cell{1, 1, -1, 18}, cell{1, 1, 38, 2}, cell{2, 1, 37, 39})
@@ -95,7 +97,7 @@ func arithJobs(tier string, o []string, receiverVariants bool) []*sym.Job {
 
 func init() {
 	arithBounds := map[string]string{
-		"quick":    "SetPrec: mantissa 1-3 words, p in {1,18,19,20,37,39}; Set/Neg/Abs: 1-2 words + zero/inf; Add/Sub: (wx,wy,digit alignment d,p) in {(1,1,0,19),(1,1,1,19),(1,1,-18,10),(1,1,19,19),(1,1,20,5),(1,1,-39,19),(2,1,-1,20)}; Mul 1x1 words (real body) p in {1,19,38}, 2x2 and 2x1 words via the dec.mul contract; Quo 1/1, 2/2, 3/1 and 4/2 words (the last two with a dividend longer than the precision requires) via the dec.div contract. Every cell: all word values, both signs, six modes, full int32 exponent range (overflow/underflow edges included), fresh or dirty receiver as noted.",
+		"quick":    "SetPrec: mantissa 1-3 words, p in {1,18,19,20,37,39}; Set/Neg/Abs: 1-2 words + zero/inf; Add/Sub: (wx,wy,digit alignment d,p) in {(1,1,0,19),(1,1,1,19),(1,1,-18,10),(1,1,19,19),(1,1,20,5),(1,1,-39,19),(2,1,-1,20),(1,1,19,18),(1,1,30,18),(2,1,19,37),(1,2,38,18)}; Mul 1x1 words (real body) p in {1,19,38}, 2x2 and 2x1 words via the dec.mul contract; Quo 1/1, 2/2, 3/1 and 4/2 words (the last two with a dividend longer than the precision requires) via the dec.div contract. Every cell: all word values, both signs, six modes, full int32 exponent range (overflow/underflow edges included), fresh or dirty receiver as noted.",
 		"thorough": "as quick plus SetPrec for every p = 1,5,9,... below 19w (w <= 3) and 4 words; 12 more Add/Sub alignment cells up to 3 words; Mul 2x1 real body, x*x, 3x3/3x2 via contract; Quo up to 3/2 words via contract and 1/1 words with the real division code.",
 	}
 	arithOutside := []string{
